@@ -1107,6 +1107,258 @@ theorem chain_run (nx : Nat) (c : Cl) (w : Ev) (T l : List Ev) (rest : List Leve
   chain_run_mixed nx (T ++ evs rest) c w T l rest ls hat hbelow hmin (fun e he => Or.inl (hcov.1 e he)) hcov.2
     (fun _ h => h) hcross hchain hu (levelWiseS_of_levelWise _ rest ls _ hw)
 
+/-! ## §F  a rollback over two epochs (unfolds `wrongEpochCommit`, `isBetter`, `rollbackTo`, `mgrCreate`)
+
+  The client follows a loser `a` of a fork and a child `a'` of `a`, then receives the better sibling `b`:
+  the snapshot taken when `a` was applied is still retained (retention ≥ 2), `is_better_candidate` compares
+  `b` with `a`, `rollback_to_epoch` restores the parent state and drops BOTH snapshots, both records are
+  invalidated, and `b` is applied. -/
+
+theorem find_mid (X Y : List Snap) (s : Snap) (ep : Nat) (hX : ∀ x ∈ X, x.epoch ≠ ep) (hs : s.epoch = ep) :
+    (X ++ s :: Y).find? (·.epoch == ep) = some s := by
+  rw [List.find?_append]
+  have : X.find? (·.epoch == ep) = none := by
+    apply List.find?_eq_none.mpr; intro x hx; simpa using hX x hx
+  simp [this, hs]
+
+theorem findIdx_mid (X Y : List Snap) (s : Snap) (ep : Nat) (hX : ∀ x ∈ X, x.epoch ≠ ep) (hs : s.epoch = ep) :
+    findIdx (X ++ s :: Y) ep = some X.length := by
+  induction X with
+  | nil => simp [findIdx, hs]
+  | cons x t ih =>
+    have hx : (x.epoch == ep) = false := by simpa using hX x List.mem_cons_self
+    simp only [List.cons_append, findIdx, hx, Bool.false_eq_true, if_false,
+      ih (fun y hy => hX y (List.mem_cons_of_mem _ hy)), Option.map_some, List.length_cons]
+
+theorem isBetter_mid (c : Cl) (X Y : List Snap) (s : Snap) (ep : Nat) (e : Ev) (hm : c.mgr = X ++ s :: Y)
+    (hX : ∀ x ∈ X, x.epoch ≠ ep) (hs : s.epoch = ep) (hts : s.ts ≠ 0) :
+    isBetter c ep e = klt (key e) (s.ts, s.commit) := by
+  unfold isBetter
+  rw [hm, find_mid X Y s ep hX hs]
+  simp only [klt, key]
+  have : (s.ts == 0) = false := by simpa using hts
+  simp only [this, Bool.false_eq_true, if_false]
+  by_cases h1 : e.ts < s.ts
+  · simp [h1]
+  · by_cases h2 : e.ts > s.ts
+    · have : ¬ e.ts = s.ts := by omega
+      simp [h1, h2, this]
+    · have : e.ts = s.ts := by omega
+      simp only [this, decide_false, Bool.false_or, beq_self_eq_true, Bool.true_and, if_false, Nat.lt_irrefl]
+      apply decide_eq_decide.mpr; exact Iff.rfl
+
+theorem rollback_mid (c : Cl) (X Y : List Snap) (s : Snap) (ep : Nat) (hm : c.mgr = X ++ s :: Y)
+    (hX : ∀ x ∈ X, x.epoch ≠ ep) (hs : s.epoch = ep) :
+    ∃ c1, rollbackTo c ep = some c1 ∧ c1.g = s.saved ∧ c1.mgr = X ∧ c1.id = c.id ∧ c1.retention = c.retention ∧
+      c1.maxPast = c.maxPast ∧ c1.hasGroup = c.hasGroup ∧ ∀ n, getRec c1 n = (getRec c n).map (rbRec ep) := by
+  unfold rollbackTo
+  rw [hm, findIdx_mid X Y s ep hX hs]
+  simp only [List.drop_left, List.take_left]
+  refine ⟨_, rfl, rfl, rfl, rfl, rfl, rfl, rfl, ?_⟩
+  intro n
+  simp only [getRec]
+  rw [alookup_map_key _ rbRec2 (by intro p; obtain ⟨k', r⟩ := p; exact ite_pair _ _ _ _),
+    alookup_map_key _ (rbRec1 ep) (by intro p; obtain ⟨k', r⟩ := p; exact ite_pair _ _ _ _)]
+  cases alookup n c.recs <;> rfl
+
+/-- the snapshot queue after a sibling is applied at the parent shape, exactly -/
+theorem apply_parent_mgr (c0 : Cl) (hb : Base c0) (retry : Cl → Option (Cl × Res)) (nx : Nat) (c : Cl) (e : Ev)
+    (hf : PForm c0 c) (hs : Sib c0 e) (hr : getRec c e.n = none) (hc : e.cipher ∉ c.g.consumed) :
+    (deliverOnce retry nx c e).1.mgr =
+      (c.mgr ++ [snapOf c0 e (e.cipher :: c.g.consumed)]).drop ((c.mgr ++ [snapOf c0 e (e.cipher :: c.g.consumed)]).length - c.retention) := by
+  obtain ⟨b, sw, hk, hadm⟩ := hs.kind
+  have hwg : (withSecret c).g = wc (gP c0) c.g.consumed := hf.g
+  have hpath : c.g.path = c0.g.path := by
+    have := congrArg GState.path hf.g
+    rw [ensureSecret_path] at this; rw [this]; exact gP_path c0
+  have hcg : (consume (withSecret c) e.cipher).g = wc (gP c0) (e.cipher :: c.g.consumed) := by
+    show ({ (withSecret c).g with consumed := e.cipher :: (withSecret c).g.consumed } : GState) = _
+    rw [hwg]; rfl
+  rw [deliverOnce_norec _ _ _ _ hr,
+    step1_commit_same retry nx c e b sw hf.hg (by rw [hwg, outerOpens_wc]; exact outerOpens_parent c0 hb e hs.path) hk
+      (by rw [hs.path, hpath]) (by rw [hf.id]; exact hs.foreign) hc,
+    processCommit_ok _ _ _ _ (by
+      rw [hcg]
+      have : isAdmin (wc (gP c0) (e.cipher :: c.g.consumed)) e.sender = isAdmin c0.g e.sender := by simp [isAdmin, gP, wc]
+      rw [this]; exact hadm)]
+  show (mgrCreate (consume (withSecret c) e.cipher) _ e).mgr = _
+  simp only [mgrCreate, hcg]
+  have hp' : (wc (gP c0) (e.cipher :: c.g.consumed)).path = c0.g.path := gP_path c0
+  rw [hp']
+  rfl
+
+theorem alookup_secretsAfter_ne (p : Path) (S : List (Nat × Path)) (k : Nat) (h : k ≠ epochOf p) :
+    alookup k (secretsAfter p S) = alookup k S := by
+  unfold secretsAfter
+  split
+  · rfl
+  · exact alookup_ainsert_ne _ _ _ _ h
+
+/-- two epochs down, the outer layer still opens an event of the grandparent state -/
+theorem outerOpens_grandchild (c0 c1 : Cl) (hb : Base c0) (a a' e : Ev) (ha : Com c0 a)
+    (hc1 : c1.g = wc (childG c0 a) c1.g.consumed) (hk' : ∃ b sw, a'.kind = .commit b sw) (hp : e.path = c0.g.path) :
+    outerOpens (childG c1 a') e = true := by
+  obtain ⟨b', sw', hk'⟩ := hk'
+  obtain ⟨h1, _, h3, _⟩ := childG_facts c0 hb a ha
+  have hp1 : c1.g.path = c0.g.path ++ [a.cipher] := by rw [hc1]; exact h1
+  have hs1 : alookup (epochOf c0.g.path) c1.g.secrets = some c0.g.path := by rw [hc1]; exact h3
+  have hsec : alookup (epochOf c0.g.path) (childG c1 a').secrets = some c0.g.path := by
+    rw [childG_eq, childOfG_commit _ _ _ _ _ hk']
+    simp only
+    rw [alookup_secretsAfter_ne _ _ _ (by rw [hp1]; simp [epochOf] <;> omega),
+      alookup_secretsAfter_ne _ _ _ (by rw [hp1]; simp [epochOf] <;> omega)]
+    exact hs1
+  have hpath : (childG c1 a').path = c0.g.path ++ [a.cipher] ++ [a'.cipher] := by
+    rw [childG_eq, childOfG_commit _ _ _ _ _ hk', hp1]
+  simp only [outerOpens, hpath, Bool.or_eq_true, List.any_eq_true]
+  right
+  refine ⟨1, by simp, ?_⟩
+  have e2 : epochOf (c0.g.path ++ [a.cipher, a'.cipher]) - 2 = epochOf c0.g.path := by simp [epochOf]; omega
+  have e3 : 2 ≤ epochOf (c0.g.path ++ [a.cipher, a'.cipher]) := by simp [epochOf]; omega
+  simp only [hp]
+  simp
+  refine ⟨e3, ?_⟩
+  rw [e2, hsec]
+  simp
+
+theorem drop_two (Q : List Snap) (s1 s2 : Snap) (r : Nat) (hr : 2 ≤ r) :
+    ∃ k, ((Q ++ [s1]).drop ((Q ++ [s1]).length - r) ++ [s2]).drop (((Q ++ [s1]).drop ((Q ++ [s1]).length - r) ++ [s2]).length - r)
+      = Q.drop k ++ s1 :: [s2] := by
+  have h1 : (Q ++ [s1]).length - r ≤ Q.length := by simp only [List.length_append, List.length_singleton]; omega
+  rw [drop_snoc _ _ _ h1]
+  generalize (Q ++ [s1]).length - r = d1
+  have h2 : (Q.drop d1 ++ ([s1] ++ [s2])).length - r ≤ (Q.drop d1).length := by
+    simp only [List.length_append, List.length_singleton]; omega
+  refine ⟨d1 + ((Q.drop d1 ++ ([s1] ++ [s2])).length - r), ?_⟩
+  rw [List.append_assoc, List.drop_append_of_le_length h2, List.drop_drop]
+  rfl
+
+theorem cform_path {c c' : Cl} {w : Ev} (hb : Base c) (hw : Com c w) (hf : CForm c w c') :
+    c'.g.path = c.g.path ++ [w.cipher] := by rw [hf.g]; exact (childG_facts c hb w hw).1
+
+theorem cform_admins {c c' : Cl} {w : Ev} (hf : CForm c w c') : c'.g.admins = c.g.admins := by
+  have h1 : (core c'.g).2.2.1 = (core (wc (childG c w) c'.g.consumed)).2.2.1 := by rw [← hf.g]
+  rw [core_wc, childG_eq, core_childOfG, coreStep_admins] at h1
+  exact h1
+
+theorem cform_below {c c' : Cl} {w : Ev} (hb : Base c) (hw : Com c w) (hf : CForm c w c') (hbel : Below c) : Below c' := by
+  obtain ⟨k, hk⟩ := hf.mgr
+  intro s hs
+  rw [cform_path hb hw hf, epochOf_snoc]
+  rw [hk] at hs
+  rcases List.mem_append.mp hs with x | x
+  · exact Nat.lt_succ_of_lt (hbel s (List.mem_of_mem_drop x))
+  · simp at x; subst x; exact Nat.lt_succ_self _
+
+/-- the child `a'` of the sibling `a`: conditions on the event, and on the client's state at the fork -/
+structure ChildOf (c : Cl) (a a' : Ev) : Prop where
+  path : a'.path = c.g.path ++ [a.cipher]
+  kind : ∃ b sw, a'.kind = .commit b sw ∧ (isAdmin c.g a'.sender || isPureSelfUpdate b sw) = true
+  foreign : a'.sender ≠ c.id
+  ts : a'.ts ≠ 0
+  unseen : getRec c a'.n = none
+  unconsumed : a'.cipher ∉ c.g.consumed
+
+/-- **rollback over two epochs** -/
+theorem depth2_core (c : Cl) (a b a' : Ev) (nx : Nat)
+    (hg : c.hasGroup = true) (hr : 2 ≤ c.retention) (hsec : SecretsOK c.g) (hbelow : Below c)
+    (hS : Siblings c [a, b]) (hab : a ≠ b) (hlt : klt (key b) (key a) = true)
+    (hc : ChildOf c a a') (hn : a'.n ≠ a.n ∧ a'.n ≠ b.n) (hci : a'.cipher ≠ a.cipher) :
+    CForm c b (run nx c [a, a', b]) ∧ getRec (run nx c [a, a', b]) b.n = some (rec2 c) ∧
+    (getRec (run nx c [a, a', b]) a.n).map (·.state) = some 4 ∧
+    (getRec (run nx c [a, a', b]) a'.n).map (·.state) = some 4 := by
+  have hb : Base c := base_of c hg (by omega) hsec hbelow.noFork
+  have hSs := sibs_of c [a, b] hS
+  have haS : a ∈ [a, b] := by simp
+  have hbS : b ∈ [a, b] := by simp
+  have sa := hSs.sib a haS
+  have sb := hSs.sib b hbS
+  obtain ⟨hnab, _, hcab⟩ := hS.distinct a haS b hbS hab
+  -- step 1: `a` at the parent state
+  obtain ⟨retry1, hd1⟩ := deliverN_once 3 nx c a
+  obtain ⟨hcf1, hrecs1, hcons1⟩ := apply_parent c hb retry1 nx c a (pform_init c hb) sa (hS.unseen a haS) (hS.unconsumed a haS)
+  have hm1 := apply_parent_mgr c hb retry1 nx c a (pform_init c hb) sa (hS.unseen a haS) (hS.unconsumed a haS)
+  generalize hc1 : (deliverOnce retry1 nx c a).1 = c1 at hcf1 hrecs1 hcons1 hm1
+  have hp1 : c1.g.path = c.g.path ++ [a.cipher] := cform_path hb sa.com hcf1
+  have hsec1 : SecretsOK c1.g := by rw [hcf1.g]; exact secretsOK_wc _ _ (secretsOK_childOfG _ _ _ hsec)
+  have hbel1 : Below c1 := cform_below hb sa.com hcf1 hbelow
+  have hb1 : Base c1 := base_of c1 hcf1.hg (by rw [hcf1.ret]; omega) hsec1 hbel1.noFork
+  -- step 2: the child `a'` at `a`'s state
+  obtain ⟨bk, swk, hkk, hadm⟩ := hc.kind
+  have sa' : Sib c1 a' :=
+    ⟨by rw [hp1]; exact hc.path, ⟨bk, swk, hkk, by simpa [isAdmin, cform_admins hcf1] using hadm⟩,
+     by rw [hcf1.id]; simpa using hc.foreign, hc.ts,
+     by rw [hcons1]; intro x; rcases List.mem_cons.mp x with y | y
+        · exact hci y
+        · exact hc.unconsumed y⟩
+  have hr1 : getRec c1 a'.n = none := by
+    simp only [getRec, hrecs1]; rw [alookup_ainsert_ne _ _ _ _ hn.1]; exact hc.unseen
+  obtain ⟨retry2, hd2⟩ := deliverN_once 3 nx c1 a'
+  obtain ⟨hcf2, hrecs2, hcons2⟩ := apply_parent c1 hb1 retry2 nx c1 a' (pform_init c1 hb1) sa' hr1 sa'.cipher
+  have hm2 := apply_parent_mgr c1 hb1 retry2 nx c1 a' (pform_init c1 hb1) sa' hr1 sa'.cipher
+  generalize hc2 : (deliverOnce retry2 nx c1 a').1 = c2 at hcf2 hrecs2 hcons2 hm2
+  -- the snapshot queue of c2: … ++ [snapshot of the parent (applied: a), snapshot of a's state (applied: a')]
+  rw [hcf1.ret, hm1] at hm2
+  obtain ⟨k, hk⟩ := drop_two c.mgr (snapOf c a (a.cipher :: c.g.consumed)) (snapOf c1 a' (a'.cipher :: c1.g.consumed)) c.retention hr
+  rw [hk] at hm2
+  have hX : ∀ x ∈ c.mgr.drop k, x.epoch ≠ epochOf c.g.path := drop_no_epoch c hb k
+  -- step 3: the better sibling `b`
+  have hr2 : getRec c2 b.n = none := by
+    simp only [getRec, hrecs2, hrecs1]
+    rw [alookup_ainsert_ne _ _ _ _ (Ne.symm hn.2), alookup_ainsert_ne _ _ _ _ (Ne.symm hnab)]
+    exact hS.unseen b hbS
+  have hst2 := (childG_stable c1 hb1 a' sa'.com).1
+  have hw2 : withSecret c2 = c2 := withSecret_eq c2 (by rw [hcf2.g, ensureSecret_wc, hst2])
+  have hp2 : c2.g.path = c.g.path ++ [a.cipher] ++ [a'.cipher] := by rw [cform_path hb1 sa'.com hcf2, hp1]
+  obtain ⟨bb, swb, hkb⟩ := sb.com.kind
+  have hbetter : isBetter c2 (epochOf c.g.path) b = true := by
+    rw [isBetter_mid c2 _ _ _ _ b hm2 hX rfl sa.ts]; exact hlt
+  obtain ⟨c3, hrb, hg3, hmgr3, hid3, hret3, hmp3, hhg3, hrec3⟩ := rollback_mid c2 _ _ _ _ hm2 hX rfl
+  have hpf3 : PForm c c3 := by
+    refine ⟨by rw [hid3, hcf2.id, hcf1.id], by rw [hret3, hcf2.ret, hcf1.ret], by rw [hmp3, hcf2.mp, hcf1.mp],
+      by rw [hhg3]; exact hcf2.hg, ?_, ⟨_, hmgr3⟩⟩
+    rw [hg3]
+    simp only [snapOf, wc_consumed]
+    rw [ensureSecret_wc]
+    show wc (ensureSecret (ensureSecret c.g)) _ = _
+    rw [ensureSecret_idem]; rfl
+  have hcons3 : c3.g.consumed = a.cipher :: c.g.consumed := by rw [hg3]; rfl
+  have hr3 : getRec c3 b.n = none := by rw [hrec3, hr2]; rfl
+  obtain ⟨retry3, hd3⟩ := deliverN_once 2 nx c3 b
+  obtain ⟨hcf4, hrecs4, _⟩ := apply_parent c hb retry3 nx c3 b hpf3 sb hr3
+    (by rw [hcons3]; intro x; rcases List.mem_cons.mp x with y | y
+        · exact hcab y.symm
+        · exact hS.unconsumed b hbS y)
+  have hfinal : run nx c [a, a', b] = (deliverOnce retry3 nx c3 b).1 := by
+    show (deliver (deliver (deliver c a nx).1 a' nx).1 b nx).1 = _
+    have e1 : (deliver c a nx).1 = c1 := by rw [deliver, hd1, hc1]
+    have e2 : (deliver c1 a' nx).1 = c2 := by rw [deliver, hd2, hc2]
+    rw [e1, e2]
+    show (deliverOnce (fun x => some (deliverN 2 nx x b)) nx c2 b).1 = _
+    rw [deliverOnce_norec _ _ _ _ hr2,
+      step1_commit_wrong _ nx c2 b bb swb hcf2.hg
+        (by rw [hw2, hcf2.g, outerOpens_wc]
+            exact outerOpens_grandchild c c1 hb a a' b sa.com hcf1.g sa'.com.kind sb.path) hkb
+        (by rw [sb.path, hp2]; simp [epochOf]),
+      hw2, sb.path]
+    simp only [wrongEpochCommit, hbetter, if_true, hrb, hd3]
+  rw [hfinal]
+  refine ⟨hcf4, by simp only [getRec, hrecs4]; exact alookup_ainsert_self _ _ _, ?_, ?_⟩
+  · have e : getRec (deliverOnce retry3 nx c3 b).1 a.n = (getRec c2 a.n).map (rbRec (epochOf c.g.path)) := by
+      simp only [getRec, hrecs4]; rw [alookup_ainsert_ne _ _ _ _ hnab]; exact hrec3 a.n
+    have e2 : getRec c2 a.n = some (rec2 c) := by
+      simp only [getRec, hrecs2, hrecs1]
+      rw [alookup_ainsert_ne _ _ _ _ (Ne.symm hn.1), alookup_ainsert_self]
+    rw [e, e2]
+    simp [rbRec, rbRec1, rbRec2, rec2]
+  · have e : getRec (deliverOnce retry3 nx c3 b).1 a'.n = (getRec c2 a'.n).map (rbRec (epochOf c.g.path)) := by
+      simp only [getRec, hrecs4]; rw [alookup_ainsert_ne _ _ _ _ hn.2]; exact hrec3 a'.n
+    have e2 : getRec c2 a'.n = some (rec2 c1) := by
+      simp only [getRec, hrecs2]; exact alookup_ainsert_self _ _ _
+    rw [e, e2]
+    have : epochOf c.g.path < epochOf c1.g.path + 1 := by rw [hp1, epochOf_snoc]; omega
+    simp [rbRec, rbRec1, rbRec2, rec2, this]
+
 /-! ## decidable forms of the event conditions (for closed examples) -/
 
 instance (w : Ev) (S : List Ev) : Decidable (IsMin w S) := by unfold IsMin; infer_instance
